@@ -162,3 +162,85 @@ Proof.
   destruct (exists_least_unknown s x _ m eq_refl ltac:(lia) Hm) as (m0 & A & B & C).
   exists m0. apply lowest_unknown_char; [lia|exact B|exact C].
 Qed.
+
+(* ---------------------------------------------------------------------------------------- *)
+(* the tolerant "lowest missing one is requested" clause (lowest_requested_ok) *)
+
+(* the lowest not-RECORDED number is never above the lowest not-DECLARED one *)
+Lemma lowest_unrecorded_le s x m0 m1 :
+  lowest_unrecorded s x = Some m0 -> lowest_unknown s x = Some m1 -> m0 <= m1.
+Proof.
+  unfold lowest_unrecorded. intros H0 H1.
+  apply lowest_unknown_sound in H0 as (A0 & B0 & C0). apply lowest_unknown_sound in H1 as (A1 & B1 & C1).
+  destruct (Z.le_gt_cases m0 m1) as [|H]; [assumption|exfalso].
+  assert (Hr : recorded s m1 = true) by (apply C0; lia).
+  apply recorded_sub_known in Hr. congruence.
+Qed.
+
+Lemma in_iv_spec lo hi m : in_iv lo hi m = true <-> lo <= m <= hi.
+Proof. unfold in_iv. rewrite andb_true_iff, !Z.leb_le. tauto. Qed.
+
+(* [requested_in lo hi rs]: the reply list asks for some number of [lo, hi] *)
+Lemma requested_in_spec lo hi rs :
+  requested_in lo hi rs = true <-> exists r, lo <= r <= hi /\ requested r rs = true.
+Proof.
+  unfold requested_in, requested. rewrite existsb_exists. split.
+  - intros (rp & Hin & H). destruct rp as [w b n bits c|w sn b n bits c].
+    + apply existsb_exists in H as (m & Hm & Hiv). exists m. split; [now apply in_iv_spec|].
+      apply existsb_exists. exists (AckNack w b n bits c). split; [exact Hin|now apply memz_true].
+    + exists sn. split; [now apply in_iv_spec|].
+      apply existsb_exists. exists (NackFrag w sn b n bits c). split; [exact Hin|apply Z.eqb_refl].
+  - intros (m & Hm & H). apply existsb_exists in H as (rp & Hin & H). exists rp. split; [exact Hin|].
+    destruct rp as [w b n bits c|w sn b n bits c].
+    + apply existsb_exists. exists m. split; [now apply memz_true|now apply in_iv_spec].
+    + apply Z.eqb_eq in H. subst sn. now apply in_iv_spec.
+Qed.
+
+Lemma requested_in_point m rs : requested_in m m rs = requested m rs.
+Proof.
+  destruct (requested m rs) eqn:E.
+  - apply requested_in_spec. exists m. split; [lia|exact E].
+  - destruct (requested_in m m rs) eqn:E'; [|reflexivity].
+    apply requested_in_spec in E' as (r & Hr & H). assert (r = m) by lia. subst r. congruence.
+Qed.
+
+(* the clause, read in Prop *)
+Lemma lowest_requested_ok_spec s w first last count final rs :
+  lowest_requested_ok s (Hb w first last count final) rs = true ->
+  forall m0 m1, Z.max first 1 <= m1 <= last -> known s m1 = false ->
+    (forall m, Z.max first 1 <= m < m1 -> known s m = true) ->
+    Z.max first 1 <= m0 -> recorded s m0 = false ->
+    (forall m, Z.max first 1 <= m < m0 -> recorded s m = true) ->
+    m0 <= m1 /\ exists r, m0 <= r <= m1 /\ requested r rs = true.
+Proof.
+  cbn [lowest_requested_ok]. intros H m0 m1 R1 K1 B1 R0 K0 B0.
+  pose proof (lowest_unknown_char s _ m1 (proj1 R1) K1 B1) as E1.
+  pose proof (lowest_unknown_char (rec_view s) _ m0 R0 K0 B0) as E0.
+  fold (lowest_unrecorded s (Z.max first 1)) in E0. rewrite E0, E1 in H.
+  split; [exact (lowest_unrecorded_le _ _ _ _ E0 E1)|].
+  destruct (Z.leb_spec m1 last); [|lia]. now apply requested_in_spec.
+Qed.
+
+(* when RECORDED and DECLARED agree on the advertised range (no GAP of the history was cut inside
+   it), the clause is the exact one: the lowest not-DECLARED number of the range is requested *)
+Lemma lowest_requested_exact_when_no_cut s w first last count final rs :
+  (forall m, Z.max first 1 <= m <= last -> recorded s m = known s m) ->
+  lowest_requested_ok s (Hb w first last count final) rs
+  = match lowest_unknown s (Z.max first 1) with
+    | Some m1 => if m1 <=? last then requested m1 rs else true
+    | None => false
+    end.
+Proof.
+  intros Hag. cbn [lowest_requested_ok].
+  destruct (lowest_unknown_some (rec_view s) (Z.max first 1)) as (m0 & E0).
+  fold (lowest_unrecorded s (Z.max first 1)) in E0.
+  destruct (lowest_unknown_some s (Z.max first 1)) as (m1 & E1). rewrite E0, E1.
+  destruct (Z.leb_spec m1 last) as [Hle|]; [|reflexivity].
+  pose proof (lowest_unrecorded_le _ _ _ _ E0 E1) as Hm.
+  unfold lowest_unrecorded in E0. apply lowest_unknown_sound in E0 as (A0 & B0 & _).
+  apply lowest_unknown_sound in E1 as (A1 & _ & C1).
+  assert (m0 = m1).
+  { destruct (Z.eq_dec m0 m1) as [|N]; [assumption|exfalso].
+    fold (recorded s m0) in B0. rewrite Hag in B0 by lia. rewrite C1 in B0 by lia. discriminate. }
+  subst m0. apply requested_in_point.
+Qed.
